@@ -38,7 +38,8 @@ tr(const char * fmt, ...)
 
 static uint64_t st_waits, st_peeks, st_consumes, st_cancels, st_eof, st_err,
     st_bytes_seen, st_grow, st_writes, st_reserves, st_zero, st_bytes_sent,
-    st_fail_cb, st_after_fail, st_big_waits, st_cancel_partial;
+    st_fail_cb, st_after_fail, st_big_waits, st_cancel_partial,
+    st_consume_pending;
 
 static void
 viol(const char * key, const char * fmt, ...)
@@ -222,6 +223,29 @@ scenario_reader(uint64_t key)
 		}
 		if (q.ncb)
 			viol("reader:callback-before-return", "callback ran inside netbuf_read_wait");
+		/*
+		 * Sometimes the application consumes buffered bytes (often all of
+		 * them) while the wait is outstanding on the network - only when
+		 * fewer than k were buffered, so that the wait cannot have been
+		 * satisfied already.  The wait is for k bytes from the position the
+		 * reader had when it was made, so it completes once k - j more
+		 * unconsumed bytes are there.
+		 */
+		netbuf_read_peek(NR, &p, &n);
+		if (n > 0 && n < k && vh_chance(&R, 1, 3)) {
+			size_t j = vh_chance(&R, 1, 2) ? n : (size_t)vh_below(&R, n + 1);
+
+			if (vh_chance(&R, 1, 2))
+				run_until(&q.done, 1 + vh_below(&R, 300));
+			if (!q.done) {
+				netbuf_read_consume(NR, j);
+				consumed += j;
+				k -= j;
+				st_consumes++;
+				st_consume_pending++;
+				tr(" wait(%zu) pending: consume(%zu)", k + j, j);
+			}
+		}
 		if (cancel) {
 			int steps = (int)vh_below(&R, 4), s;
 
@@ -497,6 +521,7 @@ main(int argc, char ** argv)
 	    (unsigned long long)st_waits, (unsigned long long)st_big_waits, (unsigned long long)st_peeks,
 	    (unsigned long long)st_consumes, (unsigned long long)st_cancels, (unsigned long long)st_cancel_partial,
 	    (unsigned long long)st_eof, (unsigned long long)st_err, (unsigned long long)st_bytes_seen);
+	printf("STAT consumes_while_wait_pending %llu\n", (unsigned long long)st_consume_pending);
 	printf("STAT writes %llu\nSTAT reserves %llu\nSTAT zero_length_writes %llu\nSTAT writer_bytes_compared %llu\n"
 	    "STAT failure_callbacks %llu\nSTAT writes_after_failure %llu\nSTAT polls %llu\nSTAT recv_calls %llu\nSTAT send_calls %llu\n",
 	    (unsigned long long)st_writes, (unsigned long long)st_reserves, (unsigned long long)st_zero,
